@@ -739,22 +739,23 @@ Proof.
   - destruct (is_self (build_redirect_url t0 q) q) eqn:Es; auto. inversion ER; subst. exact Es.
 Qed.
 
-Lemma is_self_points_back u q : q_xfp q <> [] -> is_self u q = points_back u q.
-Proof. intros H. unfold is_self, points_back, own_scheme. apply is_nil_false in H. now rewrite H. Qed.
-Lemma ref_lookup_hdr_eq q cands : q_xfp q <> [] -> ref_lookup_hdr q cands = ref_lookup q cands.
+Lemma is_self_points_back u q : is_self u q = points_back u q.
+Proof. reflexivity. Qed.
+Lemma ref_lookup_hdr_eq q cands : ref_lookup_hdr q cands = ref_lookup q cands.
 Proof.
-  intros H. induction cands as [|c cands IH]; [reflexivity|]. destruct c as [t|]; cbn [ref_lookup_hdr ref_lookup]; auto.
-  rewrite (is_self_points_back _ q H), IH. reflexivity.
+  induction cands as [|c cands IH]; [reflexivity|]. destruct c as [t|]; cbn [ref_lookup_hdr ref_lookup]; [|exact IH].
+  rewrite (is_self_points_back _ q), IH. reflexivity.
 Qed.
 
-(* with the scheme announced by X-Forwarded-Proto: Lookup answers with the first host whose
-   route does not point back at the request, and with none when there is no such host *)
-Lemma self_redirect_skipped q cands : q_xfp q <> [] -> fst (lookup q cands) = ref_lookup q cands.
-Proof. intros Hx. unfold lookup. rewrite lookup_loop_ref. now apply ref_lookup_hdr_eq. Qed.
-(* ... and, header or not, Lookup never returns a redirect that fails its own self test *)
+(* Lookup answers with the first host whose route does not point back at the request's own
+   scheme (reported by a proxy, else the connection's), host and path; with none when there is
+   no such host *)
+Lemma self_redirect_skipped q cands : fst (lookup q cands) = ref_lookup q cands.
+Proof. unfold lookup. rewrite lookup_loop_ref. apply ref_lookup_hdr_eq. Qed.
+(* ... so it never returns a redirect that points back at the request *)
 Lemma self_redirect_never_returned q cands t :
-  fst (lookup q cands) = Some t -> is_redirect t = true -> is_self (build_redirect_url t q) q = false.
-Proof. unfold lookup. rewrite lookup_loop_ref. apply ref_lookup_hdr_not_self. Qed.
+  fst (lookup q cands) = Some t -> is_redirect t = true -> points_back (build_redirect_url t q) q = false.
+Proof. unfold lookup. rewrite lookup_loop_ref, <- is_self_points_back. apply ref_lookup_hdr_not_self. Qed.
 
 Definition t_back : target := mkTarget 0 (bs "http") (bs "foo.com") (47 :: v_path) [] [] [] 301%Z.  (* http://foo.com/$path *)
 Definition t_upstream : target := mkTarget 1 (bs "http") (bs "10.0.0.2:80") [47] [] [] [] 0%Z.
@@ -762,21 +763,24 @@ Definition q_x (xfp : str) : request := mkReq (bs "foo.com") (bs "/x") [] [] xfp
 
 (* before fix 4431a54 (route/table.go: target = nil before the continue) *)
 Lemma self_redirect_last_host_refuted :
-  exists q cands t, q_xfp q <> [] /\ fst (lookup_unrepaired q cands) = Some t /\ ref_lookup q cands = None
+  exists q cands t, fst (lookup_unrepaired q cands) = Some t /\ ref_lookup q cands = None
     /\ points_back (build_redirect_url t q) q = true
     /\ fst (lookup q cands) = None.
-Proof. exists (q_x (bs "http")), [Some t_back], t_back. split; [discriminate|]. vm_compute. repeat split; reflexivity. Qed.
+Proof. exists (q_x (bs "http")), [Some t_back], t_back. vm_compute. repeat split; reflexivity. Qed.
 
+(* before fix bcdacf0 (route/table.go: the scheme of a direct request is the connection's) *)
 Lemma self_redirect_without_xfp_refuted :
   exists q cands, q_xfp q = [] /\ ref_lookup q cands = Some t_upstream
-    /\ fst (handle q cands []) = RRedirect 301%Z (bs "http://foo.com/x")
-    /\ fst (handle (q_x (bs "http")) cands []) = RProxy 1.
+    /\ fst (lookup_hdr_only q cands) = Some t_back
+    /\ points_back (build_redirect_url t_back q) q = true
+    /\ fst (lookup q cands) = Some t_upstream.
 Proof. exists (q_x []), [Some t_back; Some t_upstream]. vm_compute. repeat split; reflexivity. Qed.
 Example self_redirect_skipped_nonvacuous :
-  q_xfp (q_x (bs "http")) <> []
-  /\ fst (lookup (q_x (bs "http")) [Some t_back; Some t_upstream]) = Some t_upstream
+  fst (lookup (q_x (bs "http")) [Some t_back; Some t_upstream]) = Some t_upstream
+  /\ fst (lookup (q_x []) [Some t_back; Some t_upstream]) = Some t_upstream
+  /\ fst (lookup (q_x (bs "https")) [Some t_back; Some t_upstream]) = Some t_back
   /\ fst (lookup (q_x (bs "http")) [Some t_back]) = None.
-Proof. split; [discriminate|]. vm_compute. split; reflexivity. Qed.
+Proof. vm_compute. repeat split; reflexivity. Qed.
 
 (* ------------------------------------------------------------------ *)
 (** * simultaneous requests *)
